@@ -18,7 +18,8 @@ Property theorems only (helpers: Proofs/FineGrained.lean, Proofs/FineGrainedSem.
   (`sortMessages_keeps_file_order`) — relative to `H_complete` (dependency generation complete, snapshot
   diff complete) and the locality of the checker, which only the correspondence (harness/c03) can attack.
 * `findChanged_complete_partial` / `not_findChanged_complete` (F7) — the stat-then-hash watcher;
-  `changedModules_complete_partial` / `not_changedModules_complete` — `Server._find_changed` misses a module
+  `changedModules_complete` (the rule of /repo since a1da927) and, for the rule before it,
+  `changedModules_complete_partial` / `not_changedModules_complete`: the old `Server._find_changed` missed a module
   whose *path* changes to an already-watched, unchanged file (stub removed).
 -/
 namespace FineGrained
@@ -456,13 +457,44 @@ def content (fs : Fs) (p : Path) : Option Nat := (fs p).map (·.content)
 def PathsStable (sources prev : List (Mod × Path)) : Prop :=
   ∀ m p p0, (m, p) ∈ sources → (m, p0) ∈ prev → p0 = p
 
-/-- **changedModules_complete_partial.**  If the watcher's answer is exact and no module changed its path,
-    every module whose text differs from the text it had at the previous request is reported as changed. -/
+/-- **changedModules_complete** (the rule of /repo since a1da927, `pathRule = true`).  If the watcher's answer
+    is exact, every module of the source list whose text differs from the text it had at the previous request is
+    reported as changed — also when the module is now defined by another file (stub added or removed). -/
+theorem changedModules_complete (sources prev : List (Mod × Path)) (changedPaths : List Path) (fs0 fs1 : Fs)
+    (hexact : ∀ p, Differs (fs0 p) (fs1 p) → p ∈ changedPaths) :
+    ∀ m p p0, (m, p) ∈ sources → (m, p0) ∈ prev → content fs0 p0 ≠ content fs1 p →
+      (m, p) ∈ (changedModules true sources prev changedPaths).1 := by
+  intro m p p0 hs hp hne
+  simp only [changedModules, if_true, List.mem_append, List.mem_filter]
+  by_cases hpp : p0 = p
+  · subst hpp
+    have hd : Differs (fs0 p0) (fs1 p0) := by
+      unfold content at hne
+      unfold Differs
+      cases h0 : fs0 p0 <;> cases h1 : fs1 p0 <;> simp_all
+    left; left; left
+    exact ⟨hs, by simpa using hexact p0 hd⟩
+  · -- the module is now defined by another file
+    by_cases hin : (m, p) ∈ List.filter (fun s => changedPaths.contains s.2) sources ++
+        List.filter (fun s => !(prev.map (·.1)).contains s.1 &&
+          !(List.filter (fun s => changedPaths.contains s.2) sources).contains s) sources
+    · rcases List.mem_append.mp hin with h | h
+      · left; left; left; exact List.mem_filter.mp h
+      · left; left; right; exact List.mem_filter.mp h
+    · left; right
+      refine ⟨hs, ?_⟩
+      simp only [Bool.and_eq_true, List.any_eq_true, Bool.not_eq_eq_eq_not, Bool.not_true]
+      refine ⟨⟨(m, p0), hp, by simp [hpp]⟩, ?_⟩
+      simpa using hin
+
+/-- **changedModules_complete_partial** (the rule before a1da927, `pathRule = false`).  If the watcher's answer is
+    exact and no module changed its path, every module whose text differs from the text it had at the previous
+    request is reported as changed. -/
 theorem changedModules_complete_partial (sources prev : List (Mod × Path)) (changedPaths : List Path) (fs0 fs1 : Fs)
     (hexact : ∀ p, Differs (fs0 p) (fs1 p) → p ∈ changedPaths)
     (hstable : PathsStable sources prev) :
     ∀ m p p0, (m, p) ∈ sources → (m, p0) ∈ prev → content fs0 p0 ≠ content fs1 p →
-      (m, p) ∈ (changedModules sources prev changedPaths).1 := by
+      (m, p) ∈ (changedModules false sources prev changedPaths).1 := by
   intro m p p0 hs hp hne
   have := hstable m p p0 hs hp
   subst this
@@ -470,17 +502,18 @@ theorem changedModules_complete_partial (sources prev : List (Mod × Path)) (cha
     unfold content at hne
     unfold Differs
     cases h0 : fs0 p0 <;> cases h1 : fs1 p0 <;> simp_all
-  simp only [changedModules, List.mem_append, List.mem_filter]
+  simp only [changedModules, Bool.false_eq_true, if_false, List.mem_append, List.mem_filter]
   left; left
   exact ⟨hs, by simpa using hexact p0 hd⟩
 
-/-- The full statement is false — a stub `b.pyi` (path 2) that shadowed the unchanged, already-watched `b.py`
-    (path 1) is removed: the module's text changes, no changed path belongs to a current source. -/
+/-- Without `PathsStable` the old rule is incomplete (fixed finding C03-stub-removed) — a stub `b.pyi` (path 2)
+    that shadowed the unchanged, already-watched `b.py` (path 1) is removed: the module's text changes, no changed
+    path belongs to a current source. -/
 theorem not_changedModules_complete :
     ¬ (∀ (sources prev : List (Mod × Path)) (changedPaths : List Path) (fs0 fs1 : Fs),
         (∀ p, Differs (fs0 p) (fs1 p) → p ∈ changedPaths) →
         ∀ m p p0, (m, p) ∈ sources → (m, p0) ∈ prev → content fs0 p0 ≠ content fs1 p →
-          (m, p) ∈ (changedModules sources prev changedPaths).1) := by
+          (m, p) ∈ (changedModules false sources prev changedPaths).1) := by
   intro h
   have := h [(7, 1)] [(7, 2)] [2]
     (fun p => if p = 1 then some ⟨1000, 5, 10⟩ else if p = 2 then some ⟨1000, 5, 20⟩ else none)
@@ -495,6 +528,9 @@ theorem not_changedModules_complete :
     7 1 2 (by simp) (by simp) (by simp [content])
   revert this
   decide
+
+/-- the same input under the new rule: the module is reported -/
+example : (7, 1) ∈ (changedModules true [(7, 1)] [(7, 2)] [2]).1 := by decide
 
 example : PathsStable [(7, 1), (8, 3)] [(7, 1)] := by
   intro m p p0 hs hp
